@@ -1,8 +1,10 @@
 import MosnVerif.Drive.Downstream
+import MosnVerif.Drive.DownstreamMC
 namespace MosnVerif.Drive.C03
 open MosnVerif.Drive MosnVerif.Drive.Downstream MosnVerif.Model.Downstream
 
 def run (caseToks impl : List String) : String :=
+  if caseToks.head? == some "mc" then DownstreamMC.run caseToks else
   match parseCase caseToks, parseImpl impl with
   | some cs, some _ =>
     let out := render (modelOut cs)
